@@ -1,6 +1,6 @@
 (* C09 — property theorems.  Statements only: each is closed by [exact] of a lemma proved elsewhere.
    [gen_tables], [wrapper] are the definitions regenerated from /repo by the translators on every run. *)
-From QT Require Import C09.Model C09.ModelThm C09.GenOk C09.Events Gen.C09Gen.
+From QT Require Import C09.Model C09.ModelThm C09.GenOk C09.Events C09.Stateful Gen.C09Gen.
 Open Scope string_scope.
 Open Scope Z_scope.
 
@@ -69,6 +69,35 @@ Print Assumptions C09_events_unknown_404.
 Theorem C09_events_model_is_spec : forall s c, events_decide s c = events_spec s c.
 Proof. exact events_decide_spec. Qed.
 Print Assumptions C09_events_model_is_spec.
+
+(* the level prepare() grants, in the order of tests regenerated from the source, is the specified one: a header is
+   judged alone; only a request without header is admin when the admin password is empty *)
+Theorem C09_grant_is_spec :
+  forall present valid admin_empty tl,
+    (valid = true -> present = true) -> grant present valid admin_empty tl = grant_spec present valid admin_empty tl.
+Proof. exact grant_ok. Qed.
+Print Assumptions C09_grant_is_spec.
+
+(* histories of credential operations: for every history the model (regenerated grant + tables) reaches the password
+   state the specification prescribes (PUT /device keeps the passwords), and an operation by a caller who is below admin
+   in the current state changes nothing *)
+Theorem C09_history_state :
+  forall fl,
+    (exists h f rq, dispatch gen_tables fl (route_template RDevice) PUT = DServe h f rq) ->
+    (exists h f rq, dispatch gen_tables fl (route_template RDevice) PATCH = DServe h f rq) ->
+    forall h st, run (step_model gen_tables grant fl) st h = run step_spec st h.
+Proof. exact (fun fl => run_model_spec gen_tables grant fl wrapper_sound wrapper_refuses gen_table_ok grant_ok). Qed.
+Print Assumptions C09_history_state.
+
+Theorem C09_no_credential_change_below_admin :
+  forall fl,
+    (exists h f rq, dispatch gen_tables fl (route_template RDevice) PUT = DServe h f rq) ->
+    (exists h f rq, dispatch gen_tables fl (route_template RDevice) PATCH = DServe h f rq) ->
+    forall st o c, cred_level grant_spec st c < LV_ADMIN -> step_model gen_tables grant fl st o c = (st, false).
+Proof.
+  exact (fun fl => no_credential_change_below_admin gen_tables grant fl wrapper_sound wrapper_refuses gen_table_ok grant_ok).
+Qed.
+Print Assumptions C09_no_credential_change_below_admin.
 
 (* non-vacuity, with every optional feature on: PATCH /ports/id/value reaches patch_port_value (normal): served for
    normal, 403 for view-only, 401 without authentication; POST /reset is refused to normal; an unknown shape is 404 *)
